@@ -369,6 +369,11 @@ type BSID struct {
 }
 
 func (b *BSID) String() string {
+	// a sub-TLV without a binding SID may hold a nil BSID (NewBSID returns
+	// nil for an empty SID)
+	if b == nil {
+		return "n/a"
+	}
 	switch len(b.Value) {
 	case 0:
 		return "n/a"
